@@ -2,11 +2,14 @@
 import enginefam
 import tablefam
 import tablesfam
+import textfam
 
 CHECKS = {
     "C04": tablesfam.check,
     "C07": enginefam.check_c07,
     "C09": enginefam.check_c09,
+    "C12": textfam.check_c12,
+    "C15": textfam.check_c15,
     "C16": enginefam.check_c16,
     "C18": tablefam.check,
 }
